@@ -301,6 +301,18 @@ def text_items(defs, lab, src):
     b = fn_body(src, "push_symbol", after="impl<Builder> NameBuilder<Builder>\nwhere")
     one(r"^\s*if matches!\(sym, Symbol::Char\('\.'\)\) \{\s*if !self\.in_label\(\) \{\s*return Err\(PresentationErrorEnum::EmptyLabel\.into\(\)\);\s*\}\s*self\.end_label\(\);\s*Ok\(\(\)\)\s*\} else if matches!\(sym, Symbol::SimpleEscape\(b'\['\)\)\s*&& !self\.in_label\(\)\s*\{\s*Err\(LabelFromStrErrorEnum::BinaryLabel\.into\(\)\)\s*\} else \{\s*self\.push\(sym\.into_octet\(\)\?\)\.map_err\(Into::into\)\s*\}\s*$", b, "push_symbol")
     nn("sym_dot", ord(".")); nn("sym_bracket", ord("["))
+    # ---- OwnedLabel::from_chars and parse_escape
+    b = fn_body(lab, "from_chars", after="impl OwnedLabel")
+    m = one(r"while let Some\(ch\) = chars\.next\(\) \{\s*if res\[0\] as usize (>=|>) (Label::MAX_LEN|\d+) \{\s*return Err\(LabelFromStrErrorEnum::LongLabel\.into\(\)\);\s*\}\s*"
+            r"let ch = match ch \{\s*'(.)'\.\.='(.)' \| '(.)'\.\.='(.)' \| '(.)'\.\.='(.)' => ch as u8,\s*'\\\\' => parse_escape\(&mut chars, res\[0\] > 0\)\?,\s*_ => return Err\(BadSymbol::non_ascii\(\)\.into\(\)\),\s*\};\s*"
+            r"res\[\(res\[0\] as usize\) \+ 1\] = ch;\s*res\[0\] \+= 1;\s*\}\s*Ok\(OwnedLabel\(res\)\)\s*$", b, "OwnedLabel::from_chars")
+    defs.append(("olabel_full_ge", "bool", "true" if m.group(1) == ">=" else "false"))
+    defs.append(("olabel_full_lim", "nat", "%d%%nat" % (63 if m.group(2) == "Label::MAX_LEN" else int(m.group(2)))))
+    rs = [ord(m.group(i)) for i in range(3, 9)]
+    defs.append(("olabel_plain_ranges", "list (N * N)", "[" + "; ".join("(%d%%N, %d%%N)" % (rs[i], rs[i + 1]) for i in (0, 2, 4)) + "]"))
+    b = fn_body(src, "parse_escape")
+    m = one(r"if v > " + NUM + r" \{\s*return Err\(SymbolCharsError::bad_escape\(\)\.into\(\)\);\s*\}\s*Ok\(v as u8\)\s*\} else if ch == '\[' \{\s*if in_label \{\s*Ok\(b'\['\)\s*\} else \{\s*Err\(LabelFromStrErrorEnum::BinaryLabel\.into\(\)\)\s*\}\s*\} else \{\s*Ok\(ch as u8\)\s*\}\s*$", b, "parse_escape")
+    nn("escape_dec_max", num(m.group(1)))
 
 
 if __name__ == "__main__":
